@@ -36,7 +36,33 @@ def fresh_case(sc):
             sim.world.at(sim.now + L, lambda wt=wt: wt.release(1), 0)
             return False
         sim.srv.watch_policy = watch_policy
-        op = sim.operator('op1', reg, sim.settings(persistence__consistency_timeout=sc['timeout']))
+        # `stale` = (t, P, D): at t the object is edited, the stream is cut and its version compacted away, so the operator re-lists;
+        # the own PATCH of the cycle that handles the edit takes P seconds to be applied, and the answer to the listing (a snapshot
+        # taken BEFORE that patch) takes D > P seconds: a listed view older than the own write arrives while the barrier is up
+        stale = sc.get('stale')
+        if stale:
+            from sim.fakek8s import Plan, ResDef
+            others = sim.srv.add_resource(ResDef(GROUP, VERSION, 'others', 'Other'))
+            used = {'list': False}
+
+            def policy(req):
+                if req.route.get('plural') != PLURAL:
+                    return None
+                if req.route.get('kind') == 'patch' and stale[0] <= sim.now < stale[0] + 1:
+                    return Plan(pre=stale[1])
+                if req.route.get('kind') == 'list' and sim.now >= stale[0] and not used['list']:
+                    used['list'] = True
+                    return Plan(post=stale[2])
+                return None
+            sim.srv.policy = policy
+
+            def cut():
+                sim.set_spec('o1', x=100)
+                sim.srv.create(others, 'default', 'bump', {'spec': {}})
+                sim.srv.compact(sim.things)
+                for wt in [w_ for w_ in sim.srv.watches if w_.res.plural == PLURAL]: wt.end('eof')
+            sim.world.at(stale[0], cut, 1)
+        op = sim.operator('op1', reg, sim.settings(persistence__consistency_timeout=sc['timeout'], watching__reconnect_backoff=1))
         sim.world.at(1, lambda: sim.create('o1', {'x': 0}), 1)
         for k, t in enumerate(sc['edits'], start=1):
             sim.world.at(t, lambda k=k: sim.set_spec('o1', x=k), 1)
@@ -68,6 +94,10 @@ def fresh_scenarios(seed, n):
         edits = sorted(rnd.sample(range(3, 40), rnd.randint(1, 8)))
         out.append({'id': f'fresh-{seed}-{k}', 'lag': rnd.choice([0, 1, 1, 2, 3, 6]), 'timeout': rnd.choice([2, 5, 5]), 'mirror': rnd.random() < 0.7,
                     'edits': edits, 'end': 70})
+        if k % 4 == 3:          # a re-listing whose snapshot predates the own patch and is delivered after it
+            r2 = random.Random(f'fresh-stale-{seed}-{k}')
+            ts = r2.randint(4, 45); P = r2.choice([1, 2]); D = P + r2.choice([1, 2, 3])
+            out[-1].update(lag=0, timeout=r2.choice([5, 8]), stale=(ts, P, D), edits=[e_ for e_ in edits if abs(e_ - ts) > 1])
     return out
 
 
